@@ -61,10 +61,12 @@ pub enum Ext {
     MpRenamedField,
     /// a field read by the streaming-to-disk reader (`TempFile`) with a field-level limit
     MpTempFileField,
+    /// `Field::bytes(limit)` on the first field of a raw `Multipart` stream
+    MpFieldBytes,
 }
 
 impl Ext {
-    const ALL: [Ext; 17] = [
+    const ALL: [Ext; 18] = [
         Ext::Bytes,
         Ext::String,
         Ext::Json,
@@ -82,6 +84,7 @@ impl Ext {
         Ext::MpRepInterleaved3,
         Ext::MpRenamedField,
         Ext::MpTempFileField,
+        Ext::MpFieldBytes,
     ];
     fn name(self) -> &'static str {
         match self {
@@ -102,6 +105,7 @@ impl Ext {
             Ext::MpRepInterleaved3 => "multipart-repeated-field-limit-interleaved3",
             Ext::MpRenamedField => "multipart-renamed-field-limit",
             Ext::MpTempFileField => "multipart-tempfile-field-limit",
+            Ext::MpFieldBytes => "multipart-field-bytes-limit",
         }
     }
     fn is_mp(self) -> bool {
@@ -117,6 +121,7 @@ impl Ext {
                 | Ext::MpRepInterleaved3
                 | Ext::MpRenamedField
                 | Ext::MpTempFileField
+                | Ext::MpFieldBytes
         )
     }
     /// the limited field `f` arrives in several parts
@@ -653,6 +658,19 @@ async fn extract(case: &Case12, req: &HttpRequest, pl: &mut dev::Payload, want: 
             Ok(b) => ok_outcome(&b, want),
             Err(e) => classify_web_error(&e),
         },
+        Ext::MpFieldBytes => {
+            use futures_util::TryStreamExt as _;
+            let mut mp = actix_multipart::Multipart::new(req.headers(), pl.take());
+            match mp.try_next().await {
+                Ok(Some(mut field)) => match field.bytes(case.limit).await {
+                    Ok(Ok(b)) => ok_outcome(&b, want),
+                    Ok(Err(e)) => Outcome::Other(format!("MultipartError::{}", variant_name(&format!("{e:?}")))),
+                    Err(_) => Outcome::Overflow("LimitExceeded".into()),
+                },
+                Ok(None) => Outcome::Other("no field".into()),
+                Err(e) => Outcome::Other(format!("MultipartError::{}", variant_name(&format!("{e:?}")))),
+            }
+        }
         Ext::MpTempFileField => match mp_tempfile_field(case.limit, req, pl).await {
             Ok(b) => ok_outcome(&b, want),
             Err(e) => classify_web_error(&e),
@@ -703,6 +721,11 @@ fn request_for(case: &Case12, wire_len: usize) -> HttpRequest {
 /// wrapper alone on the same source.
 async fn allowed_pull(case: &Case12, built: &Built, req: &HttpRequest, lens: &[usize]) -> Option<usize> {
     if built.body.len() <= case.limit {
+        return None;
+    }
+    if case.ext == Ext::MpFieldBytes {
+        // documented: "the full data stream is exhausted before returning the error so that
+        // subsequent fields can still be read" (the data is discarded, not held)
         return None;
     }
     if case.ext.is_mp() {
